@@ -415,6 +415,20 @@ impl HnswIndex {
         self.nodes.read().contains_key(&id)
     }
 
+    /// Verification hook H4: read-only copy of the graph structure
+    /// (entry point, and for every node its neighbour lists per layer, layer 0 first).
+    #[cfg(grafeo_verif)]
+    #[must_use]
+    pub fn verif_graph(&self) -> (Option<NodeId>, Vec<(NodeId, Vec<Vec<NodeId>>)>) {
+        let nodes = self.nodes.read();
+        let mut out: Vec<(NodeId, Vec<Vec<NodeId>>)> = nodes
+            .iter()
+            .map(|(&id, n)| (id, n.neighbors.clone()))
+            .collect();
+        out.sort_by_key(|(id, _)| *id);
+        (*self.entry_point.read(), out)
+    }
+
     /// Iterates over all (NodeId, vector) pairs in the index.
     pub fn iter(&self) -> impl Iterator<Item = (NodeId, Arc<[f32]>)> + '_ {
         let nodes = self.nodes.read();
